@@ -7,6 +7,7 @@ import (
 	"go/token"
 	"go/types"
 	"os"
+	"regexp"
 	"sort"
 	"strings"
 	"time"
@@ -214,6 +215,10 @@ func (a *nilAnalyzer) accessKey0(v ssa.Value, depth int) (string, lastStep) {
 			_, isM := a.isModel(ad.X.Type())
 			return base + "." + fname, lastStep{kind: "field", owner: owner, field: fname, model: isM, desc: owner + "." + fname}
 		case *ssa.Alloc:
+			// a parameter boxed because a closure captures it, and never reassigned: the parameter itself
+			if prm := boxedParam(ad); prm != nil {
+				return a.accessKey(prm, depth+1)
+			}
 			// local variable cell
 			return fmt.Sprintf("*%s@%p", ad.Name(), ad), lastStep{kind: "local", desc: ad.Comment}
 		case *ssa.FreeVar:
@@ -409,6 +414,68 @@ func (a *nilAnalyzer) rejectsEmpty(owner string) bool {
 		}
 	}
 	return a.rejEmpty[owner]
+}
+
+// boxedParam: al is the heap cell of a parameter (spilled because a closure captures it) whose only
+// store is the initial one, in the function and in every closure that captures it.
+func boxedParam(al *ssa.Alloc) *ssa.Parameter {
+	var prm *ssa.Parameter
+	for _, ref := range *al.Referrers() {
+		switch r := ref.(type) {
+		case *ssa.Store:
+			if r.Addr != ssa.Value(al) {
+				return nil // the cell's address escapes into memory
+			}
+			p, ok := r.Val.(*ssa.Parameter)
+			if !ok || prm != nil {
+				return nil
+			}
+			prm = p
+		case *ssa.UnOp, *ssa.DebugRef:
+		case *ssa.MakeClosure:
+			fn, ok := r.Fn.(*ssa.Function)
+			if !ok {
+				return nil
+			}
+			for i, b := range r.Bindings {
+				if b != ssa.Value(al) || i >= len(fn.FreeVars) {
+					continue
+				}
+				if freeVarStored(fn.FreeVars[i], 0) {
+					return nil
+				}
+			}
+		default:
+			return nil
+		}
+	}
+	return prm
+}
+
+func freeVarStored(fv *ssa.FreeVar, depth int) bool {
+	if depth > 4 {
+		return true
+	}
+	for _, ref := range *fv.Referrers() {
+		switch r := ref.(type) {
+		case *ssa.Store:
+			return true
+		case *ssa.UnOp, *ssa.DebugRef:
+		case *ssa.MakeClosure:
+			fn, ok := r.Fn.(*ssa.Function)
+			if !ok {
+				return true
+			}
+			for i, b := range r.Bindings {
+				if b == ssa.Value(fv) && i < len(fn.FreeVars) && freeVarStored(fn.FreeVars[i], depth+1) {
+					return true
+				}
+			}
+		default:
+			return true
+		}
+	}
+	return false
 }
 
 // nonNilEntryType: a named map type of the model whose UnmarshalJSON assigns the receiver only from
@@ -1750,13 +1817,13 @@ func prettyKey(fn *ssa.Function, k string) string {
 	if strings.HasPrefix(root, "p:") {
 		fmt.Sscanf(root[2:], "%d", &idx)
 		if idx < len(fn.Params) {
-			return fn.Params[idx].Name() + rel
+			return cleanKey(fn.Params[idx].Name() + rel)
 		}
 	}
 	if strings.HasPrefix(root, "f:") {
 		fmt.Sscanf(root[2:], "%d", &idx)
 		if idx < len(fn.FreeVars) {
-			return fn.FreeVars[idx].Name() + rel
+			return cleanKey(fn.FreeVars[idx].Name() + rel)
 		}
 	}
 	// strip pointer addresses
@@ -1777,8 +1844,21 @@ func prettyKey(fn *ssa.Function, k string) string {
 			return strings.TrimSuffix(pre, ":0x") + "-value"
 		}
 	}
+	// embedded value names (keys of lookups): drop the address and the register name, which are
+	// not stable across runs / unrelated edits
+	return cleanKey(out)
+}
+
+func cleanKey(out string) string {
+	out = addrRe.ReplaceAllString(out, "$1")
+	out = regRe.ReplaceAllString(out, "")
 	return out
 }
+
+var (
+	addrRe = regexp.MustCompile(`(call|phi|ta|v|rng):0x[0-9a-f]+(/[0-9]+)?`)
+	regRe  = regexp.MustCompile(`@t[0-9]+`)
+)
 
 // excused: frozen exceptions (symbol + producing call), each with a reason that is re-verified on
 // every run; returns "" when no exception applies or its verification fails.
